@@ -71,7 +71,7 @@ pub(crate) fn on_step(session: &Session) {
             }
         }
     });
-    verif_rt::sched::point("eval.step");
+    verif_rt::sched::spin("eval.step");
 }
 
 pub(crate) fn pos_json(p: &Position) -> J {
@@ -847,6 +847,15 @@ pub(crate) fn maybe_run() -> bool {
     }
     match args.get(2).map(|s| s.as_str()) {
         Some("serve") => serve(),
+        Some("nrepl-run") => {
+            let mut input = String::new();
+            let _ = std::io::Read::read_to_string(&mut std::io::stdin(), &mut input);
+            let job: J = serde_json::from_str(&input).unwrap_or(J::Null);
+            let out = crate::nrepl::verif_access::controlled_run(&job);
+            println!("{out}");
+            let _ = std::io::stdout().flush();
+            std::process::exit(0);
+        }
         other => {
             eprintln!("unknown verif mode {other:?}");
             std::process::exit(3);
